@@ -30,6 +30,7 @@ class FileRefs(ast.NodeVisitor):
         self.imports = []     # (dotted module, line, guarded)
         self.refs = []        # (parts tuple, line)
         self.dynamic = []     # getattr(mod, "lit") style references, informational
+        self.methods = []     # attribute names used on values of unknown type
         self.star = []
         self._guard = 0
         self.bound = set()    # names rebound locally (params, assignments): chains on them skipped
@@ -104,6 +105,9 @@ class FileRefs(ast.NodeVisitor):
             parts = self.alias[cur.id] + tuple(reversed(chain))
             self.refs.append((parts, node.lineno))
         else:
+            # attribute of a value of statically unknown type: only its names are recorded
+            for a in chain:
+                self.methods.append((a, node.lineno))
             self.visit(cur)
 
     def visit_Name(self, node):
@@ -218,6 +222,7 @@ def main(repo, out_v, out_json):
                         changed = True
 
     open_modules = {m for m, ns_ in pyrex_ns.items() if "*" in ns_}
+    method_names, own_names = {}, set()
     refs = {}           # parts -> first location
     all_imports = []
     dynamic = []
@@ -241,6 +246,13 @@ def main(repo, out_v, out_json):
             if m.split(".")[0] != "pyrex" and not (m.split(".")[0] in DOCUMENTED_OPTIONAL):
                 unresolved_star.append((m, "%s:%d" % (rel, line)))
         dynamic += [(d, "%s:%d" % (rel, line)) for d, line in fr.dynamic]
+        for a, line in fr.methods:
+            method_names.setdefault(a, "%s:%d" % (rel, line))
+        for n in ast.walk(ast.parse(open(f).read())):
+            if isinstance(n, (ast.FunctionDef, ast.ClassDef)):
+                own_names.add(n.name)
+            elif isinstance(n, ast.Attribute) and isinstance(n.ctx, ast.Store):
+                own_names.add(n.attr)
 
     imported_modules = {m for m, _ in all_imports}
     # ------------------------------------------------------------ build the environment
@@ -352,6 +364,15 @@ def main(repo, out_v, out_json):
     lines.append("Definition undeclared_imports : list string := [%s]." %
                  "; ".join(coq_str("%s @ %s" % u) for u in undeclared + unresolved_star))
     lines.append("Definition n_refs : nat := %d." % len(checked))
+    ext_methods = sorted(a for a in method_names if a not in own_names)
+    lines.append("Definition method_names : list string := [%s]." % "; ".join(coq_str(a) for a in ext_methods))
+    pkg_dirs = sorted({os.path.relpath(os.path.dirname(f), repo).replace(os.sep, ".") for f in files})
+    setup_pkgs = set()
+    for node in ast.walk(ast.parse(setup_src)):
+        if isinstance(node, ast.keyword) and node.arg == "packages" and isinstance(node.value, (ast.List, ast.Tuple)):
+            setup_pkgs = {e.value for e in node.value.elts if isinstance(e, ast.Constant)}
+    missing_pkgs = [p for p in pkg_dirs if p not in setup_pkgs]
+    lines.append("Definition unpackaged_dirs : list string := [%s]." % "; ".join(coq_str(p) for p in missing_pkgs))
     open(out_v + ".tmp", "w").write("\n".join(lines) + "\n")
     old = open(out_v).read() if os.path.exists(out_v) else None
     new = open(out_v + ".tmp").read()
@@ -364,7 +385,8 @@ def main(repo, out_v, out_json):
         "undeclared": undeclared + unresolved_star,
         "declared": sorted(declared), "files": len(files),
         "env": {".".join(k): v for k, v in env.items() if k},
-        "pyrex_modules": sorted(pyrex_ns), "open_modules": sorted(open_modules),
+        "pyrex_modules": sorted(pyrex_ns), "method_names": {a: method_names[a] for a in method_names if a not in own_names},
+        "unpackaged_dirs": missing_pkgs, "open_modules": sorted(open_modules),
     }, open(out_json, "w"), indent=0)
 
 
